@@ -3,12 +3,14 @@ import itertools
 
 import lib
 
-WS = [" ", "  ", "\t", "\n", "　", "  ", " \r\n", "\x1c", " "]
+WS = [" ", "  ", "\t", "\n", "　", "  ", " \r\n", "\x1c", " ", "\n    ", "\n\t ", "\r\n  "]
 TERMS = ["a", "foo", "b2", "x*", "?y", "2024-01-01T12:30", "T12:30:45", "xT12:30", "éa", "AND1", "ANDx",
          "\\AND", "a\\ b", "\\:x", "a/b", "a-b", "a+b", "a'b", "a\"b", "<", "a<b", "1", "42", ".", ",",
-         "=a", "a=", "*", "T12", "١٢", "x\\\\", "&&", "||", "!", "NOTx", "to", "T٠٠:٠٠"]
-PHRASES = ['"a"', '"a b"', '""', '"a \\" b"', '"l1\nl2"', '"AND"', '"/"', '"\\\\"', '"a:b"', "\"it's\""]
-REGEXES = ["/a/", "/a b/", "//", "/a\\/b/", '/"/', "/[a-z]+/"]
+         "=a", "a=", "*", "T12", "١٢", "x\\\\", "&&", "||", "!", "NOTx", "to", "T٠٠:٠٠",
+         "foo\\ ", "b\\\t", "c\\\u3000"]
+PHRASES = ['"a"', '"a b"', '""', '"a \\" b"', '"l1\nl2"', '"AND"', '"/"', '"\\\\"', '"a:b"', "\"it's\"",
+           '"a\rb"', '"a\x0cb"', '"a\u2028b"', '"a\x85b"', '"a\x1cb"']
+REGEXES = ["/a/", "/a b/", "//", "/a\\/b/", '/"/', "/[a-z]+/", "/a\rb/", "/a\u2029b/"]
 NUMS = ["", "1", "2", "0.5", ".5", "2.0", "007", "10", "100", "0.0000001", "1.50", "0", "0.0", "00",
         "1234567890123456789012345678901", "1.0000000000000000000000000001"]
 BADNUMS = [".", "1.2.3", "..", "1.", "1..2"]
